@@ -84,6 +84,21 @@ Theorem absent_source_ok o src dst r e x dg c :
     (c_no_recheck o = false -> ws_read (xfs r') dst = Some c).
 Proof. exact (copy_absent_source o src dst r e x dg c). Qed.
 
+(* move: one source that is in the cache but not in the workspace.  The pair (Copy, Copy) of recorded and requested
+   method needs the repair behind fixed_mv_absent (move_absent_refuted below shows the code as it is); every other
+   pair works in the code as it is: the command succeeds, the source path is untracked, the destination reads the
+   committed bytes *)
+Theorem absent_source_ok_move fl o src dst r e x dg c :
+  wf_fs (xfs r) -> wf_recs (base r) ->
+  sources r src = [(e, x)] -> ends_slash dst = false -> stored r dst = false -> ws_lexists (xfs r) dst = false ->
+  wget (xfs r) (r_path x) = None ->
+  r_digest x = Some dg -> extension dst = extension (r_path x) -> holds (xfs r) (cache_addr (r_path x) dg) c ->
+  (fixed_mv_absent fl = true \/ both_copy o x = false) ->
+  exists r', move_cmd fl o src dst r = (r', Ok) /\
+    (forall e' y, In (e', y) (recs (base r')) -> r_path y <> r_path x) /\
+    (m_no_recheck o = false -> ws_read (xfs r') dst = Some c).
+Proof. exact (move_absent_source fl o src dst r e x dg c). Qed.
+
 (* ---- 5. ... for every reachable repository -------------------------------------------------------------------------------
    [xreach fl r]: r is reached from an initialised repository by a history of user writes / deletions / touches,
    track / carry-in / recheck, copy / move / remove / untrack, every step outside the known classes ([xclean]:
@@ -221,6 +236,7 @@ Print Assumptions copy_plans_sources.
 Print Assumptions move_preserves_count.
 Print Assumptions refuses.
 Print Assumptions absent_source_ok.
+Print Assumptions absent_source_ok_move.
 Print Assumptions copy_shares_object_reachable.
 Print Assumptions move_preserves_count_reachable.
 Print Assumptions absent_source_ok_reachable.
